@@ -588,3 +588,22 @@ package ysgo
 //@   requires "capture": *rng != nil && (*rng).source != nil
 //@   ensures  "error-iff-out-of-domain": (err == nil) == (lowerBound <= upperBound && upperBound - lowerBound < 9223372036854775807)
 //@   ensures  "in-range": err == nil ==> lowerBound <= res && res <= upperBound
+//
+// ---- command_storer.go: the built-in <<wait n>> (C10) -------------------------------------------------------------
+//
+//@ func waitCommand(args []*variable.Value) (ch <-chan error)
+//@   requires allWf(args)
+//@   ensures "hands-out-a-channel": ch != nil && fresh(ch)
+//@   ensures "bad-arguments-complete-at-once-with-an-error": (len(args) != 1 || !isVNum(absval(args[0]))) ==> ready(ch) && recv(ch) != nil
+//
+//@ closure waitCommand$1()
+//@   float ieee
+//@   requires "capture": *duration != nil && (*duration).Number != nil && *ch != nil && chancap(*ch) == 1 && chancnt(*ch) == 0
+//@   carveout "beyond-int64-nanoseconds": fitsInt(fmul(*((*duration).Number), 1000000000.0))
+//@   modifies chanstate(*ch), World
+//@   assert "sleeps-the-product-not-the-truncated-seconds": at call time.Sleep#0: arg0 == toInt(fmul(*((*duration).Number), 1000000000.0))
+//
+// n seconds as nanoseconds: multiplying first keeps the fraction (the defect was int64(n) * 10^9).
+// Not a proof obligation (the solvers do not decide IEEE multiplication against real arithmetic): the
+// truncated IEEE product is within 2 ns of the exact one for waits up to 10^6 s (rounding error of the
+// product <= 2^-53 * 10^15 < 0.12, truncation < 1); listed as an assumption of C10.
